@@ -184,6 +184,10 @@ def run(ctx):
             # callee clones whose call-site operand types it could not infer)
             ctx.count("spec_compile_rejected")
             ctx.note(f"spec compile rejected: {case['spec_compile_error'][:160]}")
+            if not case["spec_compile_error"].startswith("TypeCheckError"):
+                # kirin's verifier rejecting a callee clone (TypeCheckError) is the one benign rejection seen on the pinned
+                # tree; anything else means a program that compiles without a spec cannot be compiled with one
+                ctx.fail(case, f"the program compiles without a spec, but compiling it with the spec raises: {case['spec_compile_error'][:200]}")
         elif comp != ref:
             ctx.fail(case, f"specialised kernel run without a spec differs from the unspecialised kernel run against the spec: "
                            f"compiled={comp[:300]} reference={ref[:300]}")
